@@ -38,6 +38,18 @@ P = {
         text="An enumerated matrix of operation x operand kind x operand order (incl. every shape mismatch) for vectors and matrices, a table of view recipes (slices, rows, columns, diagonals, transposes, symmetric sharing) and seeded random construction recipes are built through the public operators and evaluated; values and shapes must equal the reference interpreter's and mismatched operands must raise. The operand matrix is enumerated completely; the random part is a sample.",
         ref="3/C11",
     ),
+    "C17": dict(
+        level="exploration",
+        technique="runtime monitoring: symbolic and compiled Hessians vs second-order jet reference; symmetry assertion; shortcut names recorded",
+        text="All n^2 entries of compute_hessian and the output of compile_hessian are compared with own second-order Taylor arithmetic on the recipe at regular points, under the four variable-list relations, and H = H^T is asserted on every observed matrix; the diagonal shortcuts are driven by the directed vectorised-sum families. Held-on-observed only.",
+        ref="3/C17",
+    ),
+    "C19": dict(
+        level="exploration",
+        technique="runtime monitoring: derivative callables probed exactly on singular sets; finiteness / expected-class / unchanged-regular-entry / path-agreement assertions",
+        text="Separable sums of singular atoms (17 scalar, 7 vectorised, L2 norm) with coefficients of both signs are evaluated with some coordinates exactly on the singular set through compile_gradient, compile_jacobian (1 and 3 rows) and compile_hessian under four variable-list relations; every entry must be finite, singular first-derivative entries must equal the hand-specified class (0 / +-1e16), regular entries must equal the jet reference, and the vectorised and element-wise spellings must agree. Composite 0*inf forms are judged for finiteness only.",
+        ref="3/C19",
+    ),
 }
 
 PENDING = "check under construction in this round (see DESIGN.md section 3 for the planned monitor)"
